@@ -5,3 +5,4 @@ import Foundation.Lemmas.Cache
 import Foundation.Proofs.C12
 import Foundation.Gen.Facts
 import Foundation.Proofs.C02
+import Foundation.Proofs.C20
